@@ -335,9 +335,9 @@ def verdict(prop, results, extra_prefixes=("C00.",)):
     return nviol, dict(known=known_seen, others=others, tool_errors=tool_errors)
 
 
-def finish(prop, level, results, mc, t0, rule, assumptions, extra_cov=None):
+def finish(prop, level, results, mc, t0, rule, assumptions, extra_cov=None, extra_prefixes=("C00.",)):
     """common tail of a check: verdict, evidence, exit code"""
-    nviol, info = verdict(prop, results)
+    nviol, info = verdict(prop, results, extra_prefixes)
     programs = sum(r.programs for _, r in results)
     events = sum(r.events for _, r in results)
     shapes = set()
